@@ -6,12 +6,13 @@
 From ZV Require Import Prelude Ledger Mailbox.
 Open Scope Z_scope.
 
-Definition c04_check_run (i : bool * Z * Z * option Z * bool * option Z) : Z :=
-  let '(enf, a, h, sendto, received, next) := i in recv_check enf a h sendto received next.
+(* (enforcement height, height of the frontier momentum) : the two numbers fromHash() compares *)
+Definition c04_check_run (i : (Z * Z) * Z * Z * option Z * bool * option Z) : Z :=
+  let '(reg, a, h, sendto, received, next) := i in recv_check (fst reg <=? snd reg) a h sendto received next.
 Definition c04_check_eqb : Z -> Z -> bool := Z.eqb.
 
 Definition c04_out := (list Z * list (list Z) * list (list Z))%type.
-Definition c04_hist_run (i : bool * list event * list Z) : c04_out :=
+Definition c04_hist_run (i : Z * list event * list Z) : c04_out :=
   let '(enf, es, accts) := i in
   let '(codes, n) := run_codes enf genesis_node es in
   (codes, map (fun a => recvs_of a (blocks_of n)) accts, map (fun a => inbox_at a (chain n)) accts).
